@@ -1,2 +1,160 @@
-import Tftp.Model.Sender
+import Tftp.Lemmas.SenderStep
 import Tftp.Model.Receiver
+/-!
+# C16 — Duplicate-packets mode repeats data-phase datagrams N+1 times, stays correct
+
+`rep = N + 1` is the `repeat_amount` the server passes to its workers.
+-/
+namespace Tftp
+
+/-- every DATA/ACK of the data phase `r` times back to back; the handshake ERROR once -/
+def stutter (r : Nat) (ps : List Packet) : List Packet :=
+  ps.flatMap fun p => if p = illegalOp then [p] else List.replicate r p
+
+theorem sendWindow_stutter (r bn : Nat) (es : List Bytes) :
+    sendWindow r bn es = stutter r (sendWindow 1 bn es) := by
+  induction es generalizing bn with
+  | nil => simp [sendWindow, stutter]
+  | cons e es ih =>
+    simp only [sendWindow, sendPacket, ih]
+    unfold stutter
+    simp [illegalOp]
+
+/-- same configuration except for the repeat count -/
+def SCfg.withRep (c : SCfg) (r : Nat) : SCfg := { c with rep := r }
+
+theorem sHead_stutter (c : SCfg) (r : Nat) (s : SState) :
+    (sHead (c.withRep r) s).1 = (sHead (c.withRep 1) s).1 ∧
+    (sHead (c.withRep r) s).2 = stutter r (sHead (c.withRep 1) s).2 := by
+  unfold sHead SCfg.withRep
+  simp only
+  split
+  · exact ⟨rfl, sendWindow_stutter r s.bn s.win.elems⟩
+  · exact ⟨rfl, by simp [stutter]⟩
+
+theorem sOuter_stutter (c : SCfg) (r : Nat) (s : SState) :
+    (sOuter (c.withRep r) s).1 = (sOuter (c.withRep 1) s).1 ∧
+    (sOuter (c.withRep r) s).2 = stutter r (sOuter (c.withRep 1) s).2 := by
+  unfold sOuter
+  split
+  · exact sHead_stutter c r _
+  · exact ⟨rfl, by simp [stutter]⟩
+
+/-- **stutter**: for every state, event and elapsed time, a sender with repeat count `r` moves to the
+same state as one with repeat count 1 and emits the `r`-fold stutter of its output -/
+theorem c16_stutter_step (c : SCfg) (r : Nat) (s : SState) (ev : SEv) (dt : Nat) :
+    (sStep (c.withRep r) s ev dt).1 = (sStep (c.withRep 1) s ev dt).1 ∧
+    (sStep (c.withRep r) s ev dt).2 = stutter r (sStep (c.withRep 1) s ev dt).2 := by
+  have hnil : stutter r [] = [] := by simp [stutter]
+  have hill : stutter r [illegalOp] = [illegalOp] := by simp [stutter]
+  unfold sStep
+  split
+  · cases ev with
+    | ack n =>
+      simp only
+      split
+      · exact sOuter_stutter c r _
+      · exact ⟨rfl, hill.symm⟩
+    | error => exact ⟨rfl, hnil.symm⟩
+    | fail => exact ⟨rfl, hnil.symm⟩
+    | other => exact sOuter_stutter c r _
+  · cases ev with
+    | ack n =>
+      simp only
+      split
+      · split
+        · exact ⟨rfl, hnil.symm⟩
+        · exact sOuter_stutter c r _
+      · exact sHead_stutter c r _
+    | error => exact ⟨rfl, hnil.symm⟩
+    | fail =>
+      simp only
+      split
+      · exact ⟨rfl, hnil.symm⟩
+      · exact sHead_stutter c r _
+    | other =>
+      simp only
+      split
+      · exact ⟨rfl, hnil.symm⟩
+      · exact sHead_stutter c r _
+  · exact ⟨rfl, hnil.symm⟩
+
+/-- lifted to whole runs: same final state, every output group stuttered -/
+theorem c16_stutter (c : SCfg) (r : Nat) (f : Bytes) (chk : Bool) (evs : List (SEv × Nat)) :
+    (sRun (c.withRep r) f chk evs).2 = (sRun (c.withRep 1) f chk evs).2 ∧
+    (sRun (c.withRep r) f chk evs).1 = (sRun (c.withRep 1) f chk evs).1.map (stutter r) := by
+  have hfrom : ∀ (evs : List (SEv × Nat)) (s : SState),
+      (sRunFrom (c.withRep r) s evs).2 = (sRunFrom (c.withRep 1) s evs).2 ∧
+      (sRunFrom (c.withRep r) s evs).1 = (sRunFrom (c.withRep 1) s evs).1.map (stutter r) := by
+    intro evs
+    induction evs with
+    | nil => intro s; simp [sRunFrom]
+    | cons e es ih =>
+      intro s
+      obtain ⟨h1, h2⟩ := c16_stutter_step c r s e.1 e.2
+      simp only [sRunFrom, h1, h2, List.map_cons]
+      exact ⟨(ih _).1, by rw [(ih _).2]⟩
+  have hinit : (sInit (c.withRep r) f chk).1 = (sInit (c.withRep 1) f chk).1 ∧
+      (sInit (c.withRep r) f chk).2 = stutter r (sInit (c.withRep 1) f chk).2 := by
+    unfold sInit
+    cases chk with
+    | true => exact ⟨rfl, by simp [stutter]⟩
+    | false => exact sOuter_stutter c r _
+  unfold sRun
+  simp only [hinit.1, hinit.2, List.map_cons]
+  exact ⟨(hfrom _ _).1, by rw [(hfrom _ _).2]⟩
+
+/-- each DATA block is emitted exactly `r` times back to back -/
+theorem c16_data_repeated (r bn : Nat) (e : Bytes) (es : List Bytes) :
+    sendWindow r bn (e :: es) = List.replicate r (.data bn e) ++ sendWindow r ((bn + 1) % 65536) es := rfl
+
+/-- the receiver emits each data-phase ACK exactly `r` times back to back -/
+theorem c16_ack_repeated (r n : Nat) (file : FileSt) :
+    ackOut r n file = List.replicate r { n := n, file := file } := rfl
+
+/-- the receiver's states do not depend on the repeat count, its ACK groups are `r` copies of one ACK -/
+theorem c16_receiver_step (c : RCfg) (r : Nat) (s : RState) (ev : REv) :
+    (rStep { c with rep := r } s ev).1 = (rStep { c with rep := 1 } s ev).1 ∧
+    (rStep { c with rep := r } s ev).2 = (rStep { c with rep := 1 } s ev).2.flatMap (List.replicate r) := by
+  have hflush : ∀ t : RState, (flushAck { c with rep := r } t).1 = (flushAck { c with rep := 1 } t).1 ∧
+      (flushAck { c with rep := r } t).2 = (flushAck { c with rep := 1 } t).2.flatMap (List.replicate r) := by
+    intro t
+    unfold flushAck
+    split <;> simp [ackOut]
+  have hnil : ([] : List AckObs) = ([] : List AckObs).flatMap (List.replicate r) := by simp
+  have markOk_congr : ∀ (a b : RState × List AckObs), a.1 = b.1 →
+      a.2 = b.2.flatMap (List.replicate r) →
+      (markOk a).1 = (markOk b).1 ∧ (markOk a).2 = (markOk b).2.flatMap (List.replicate r) := by
+    intro a b h1 h2
+    unfold markOk
+    rw [h1, h2]
+    exact ⟨rfl, rfl⟩
+  unfold rStep
+  split
+  · cases ev with
+    | data n payload =>
+      simp only
+      split
+      · split
+        · split
+          · exact markOk_congr _ _ (hflush _).1 (hflush _).2
+          · split
+            · exact hflush _
+            · exact ⟨rfl, hnil⟩
+        · exact ⟨rfl, hnil⟩
+      · exact hflush _
+    | error => exact ⟨rfl, hnil⟩
+    | fail =>
+      simp only
+      split <;> simp
+  · exact ⟨rfl, hnil⟩
+
+/-- `--duplicate-packets n` is accepted by the configuration parser only below the bound of the source
+(`u8::MAX`), so `n + 1` fits the `u8` repeat count -/
+theorem c16_dup_bound : Gen.dupPacketsBound = 255 ∧ Gen.dupPacketsBound - 1 + 1 < 256 := by decide
+
+/-! non-vacuity -/
+example : (sRun (({ b := 2, w := 1, timeout := 5, rep := 9 } : SCfg).withRep 3) [1, 2, 3] false [(.ack 1, 0)]).1 =
+    [[.data 1 [1, 2], .data 1 [1, 2], .data 1 [1, 2]], [.data 2 [3], .data 2 [3], .data 2 [3]]] := by decide
+
+end Tftp
